@@ -3,6 +3,7 @@ use serde::{Deserialize, Serialize};
 use serde_json::Value;
 
 pub mod deb822;
+pub mod edit;
 
 #[derive(Serialize, Deserialize, Default, Debug, Clone)]
 pub struct Viol {
@@ -50,6 +51,7 @@ pub fn run_case(stage: &str, case: &Value, seed: u64) -> Outcome {
         "deb822_strings" => deb822::run_strings(case, seed),
         "deb822_docs" => deb822::run_docs(case, seed),
         "deb822_files" => deb822::run_files(case, seed),
+        "deb822_edit" => edit::run_edge(case, seed),
         _ => panic!("unknown stage {}", stage),
     }
 }
@@ -71,8 +73,9 @@ pub fn features(stage: &str, case: &Value) -> Vec<String> {
     }
 }
 
-pub fn record(stage: &str, _args: &[String]) {
+pub fn record(stage: &str, args: &[String]) {
     match stage {
+        "deb822_edit" => edit::record(args),
         _ => {
             eprintln!("no recorder for stage {}", stage);
             std::process::exit(2);
